@@ -3,6 +3,7 @@
 use std::io::{BufRead, Write};
 
 mod pure;
+mod ring;
 mod util;
 
 fn main() {
@@ -15,6 +16,7 @@ fn main() {
     let mut out = std::io::BufWriter::new(stdout.lock());
     let f: fn(&str) -> String = match cmd {
         "pure" => pure::run_line,
+        "ring" => ring::run_line,
         _ => {
             eprintln!("usage: zh <pure> < cases");
             std::process::exit(2);
